@@ -1,0 +1,44 @@
+//go:build verif
+
+package http2
+
+// The request-body buffer (dataBuffer) and the pipe built on it, exposed for the
+// verification harness (/verif), which compares them with a plain byte queue.
+// Compiled only with the "verif" build tag; nothing here is used by the package itself.
+
+// VerifDataBuffer is a dataBuffer as the server creates it for a request body
+// (expected: the declared content-length, 0 if none).
+type VerifDataBuffer struct{ b dataBuffer }
+
+func VerifNewDataBuffer(expected int64) *VerifDataBuffer {
+	return &VerifDataBuffer{b: dataBuffer{expected: expected}}
+}
+
+func (v *VerifDataBuffer) Write(p []byte) (int, error) { return v.b.Write(p) }
+func (v *VerifDataBuffer) Read(p []byte) (int, error)  { return v.b.Read(p) }
+func (v *VerifDataBuffer) Len() int                    { return v.b.Len() }
+
+// VerifChunks reports the lengths of the chunks the buffer currently holds.
+func (v *VerifDataBuffer) VerifChunks() []int {
+	var out []int
+	for _, c := range v.b.chunks {
+		out = append(out, len(c))
+	}
+	return out
+}
+
+// VerifPipe is the pipe between the frame-reading side and a request handler,
+// on a dataBuffer as in the server.
+type VerifPipe struct{ p pipe }
+
+func VerifNewPipe(expected int64) *VerifPipe {
+	v := &VerifPipe{}
+	v.p.setBuffer(&dataBuffer{expected: expected})
+	return v
+}
+
+func (v *VerifPipe) Write(d []byte) (int, error) { return v.p.Write(d) }
+func (v *VerifPipe) Read(d []byte) (int, error)  { return v.p.Read(d) }
+func (v *VerifPipe) Len() int                    { return v.p.Len() }
+func (v *VerifPipe) CloseWithError(err error)    { v.p.CloseWithError(err) }
+func (v *VerifPipe) BreakWithError(err error)    { v.p.BreakWithError(err) }
